@@ -40,6 +40,13 @@ CASES = [
     ('harmless.rename_local', 'src/parser/stream.rs', 'let parsed_len = self.gap_start - self.parsed_start;\n        self.parsed_start += min(amt, parsed_len);', 'let plen = self.gap_start - self.parsed_start;\n        self.parsed_start += min(amt, plen);', ['C02', 'C03'], 'harmless'),
     ('harmless.reorder_independent', 'src/parser/stream.rs', '        self.payload_rem = head.content_length;\n        self.padding_rem = head.padding_length;\n        self.raw_start = past_head;', '        self.raw_start = past_head;\n        self.padding_rem = head.padding_length;\n        self.payload_rem = head.content_length;', ['C02'], 'harmless'),
     ('harmless.comment_and_trace', 'src/parser/request.rs', '        self.input_len = rem_len;', '        // keep only the tail\n        self.input_len = rem_len;', ['C05'], 'harmless'),
+    # ---- harmless reorderings of independent statements next to length arithmetic (second false-alarm class, DESIGN 9)
+    ('harmless.mpx_count_before_extend', 'src/parser/stream.rs', '                self.output.extend(endreq);\n                res.output += endreq.len();', '                res.output += endreq.len();\n                self.output.extend(endreq);', ['C04'], 'harmless'),
+    ('harmless.payload_rem_before_raw_start', 'src/parser/stream.rs', '        self.raw_start += consumed;\n        self.payload_rem -= consumed as u16;', '        self.payload_rem -= consumed as u16;\n        self.raw_start += consumed;', ['C02'], 'harmless'),
+    ('harmless.padding_rem_before_raw_start', 'src/parser/stream.rs', '                    self.raw_start = self.free_start;\n                    self.padding_rem -= raw_len as u8;', '                    self.padding_rem -= raw_len as u8;\n                    self.raw_start = self.free_start;', ['C02'], 'harmless'),
+    ('harmless.request_clear_before_len', 'src/parser/request.rs', '        self.input_len += new_input;\n        self.output.clear();', '        self.output.clear();\n        self.input_len += new_input;', ['C05'], 'harmless'),
+    ('harmless.skip_zero_before_sub', 'src/parser/request.rs', '            self.padding_rem -= (data.len() - payload) as u8;\n            self.payload_rem = 0;', '            self.payload_rem = 0;\n            self.padding_rem -= (data.len() - payload) as u8;', ['C03'], 'harmless'),
+    ('harmless.skip_total_via_plus', 'src/parser/request.rs', '        } else if overflow || data.len() < total {', '        } else if overflow || total > data.len() {', ['C03'], 'harmless'),
 ]
 
 
